@@ -41,6 +41,10 @@ pub enum Ty {
     ByteArray(usize),
     /// Box / Rc / Arc / & — nothing on the wire, but `Vec<Box<u8>>` is not `Vec<u8>`
     Wrap(Box<Ty>),
+    /// a client codec that tries to read the inner type and carries on when that fails (`Tolerant<T>` of the harness):
+    /// the value at this position and the cursor afterwards are the client's business — the reference decoder only
+    /// answers for what lies in *other* chunk windows (see `Dec::lenient`)
+    Lenient(Box<Ty>),
     Uuid,
     BigInt,
     BigDecimal,
@@ -254,6 +258,7 @@ impl Ty {
             Ty::Array(t, n) => format!("[{};{}]", t.render(), n),
             Ty::ByteArray(n) => format!("[u8;{n}]"),
             Ty::Wrap(t) => format!("Box<{}>", t.render()),
+            Ty::Lenient(t) => format!("Tolerant<{}>", t.render()),
             Ty::Record(r) => format!("record {}", r.name),
             Ty::Enum(e) => format!("enum {}", e.name),
             Ty::Named(n) => n.clone(),
@@ -265,7 +270,7 @@ impl Ty {
     pub fn may_encode_empty(&self) -> bool {
         match self.resolved() {
             Ty::Unit => true,
-            Ty::Wrap(t) => t.may_encode_empty(),
+            Ty::Wrap(t) | Ty::Lenient(t) => t.may_encode_empty(),
             _ => false,
         }
     }
@@ -284,7 +289,7 @@ impl Ty {
             return true;
         }
         match self {
-            Ty::Opt(t) | Ty::Seq(t) | Ty::Set(t) | Ty::Array(t, _) | Ty::Wrap(t) => t.any(f, seen),
+            Ty::Opt(t) | Ty::Seq(t) | Ty::Set(t) | Ty::Array(t, _) | Ty::Wrap(t) | Ty::Lenient(t) => t.any(f, seen),
             Ty::Res(a, b) | Ty::Map(a, b) => a.any(f, seen) || b.any(f, seen),
             Ty::Tuple(ts) => ts.iter().any(|t| t.any(f, seen)),
             Ty::Record(r) => r.fields.iter().any(|x| x.ty.any(f, seen)),
